@@ -469,6 +469,9 @@ def known_signature(case, bucket, entry):
 def gen(col, seed, n, lang, use_corpus):
     known = withheld_constructs(ID)
     files = [rel for lg, rel in corpus() if lg == lang]
+    from vf.props.c17 import template_cases
+
+    marked_bases = [] if use_corpus else sorted({c["template"]["text"] for c in template_cases() if c["template"]["lang"] == lang})
 
     @st.composite
     def cases(draw):
@@ -476,6 +479,11 @@ def gen(col, seed, n, lang, use_corpus):
             rel = draw(st.sampled_from(files))
             text = read_corpus(rel)
             case = {"lang": lang, "corpus": rel}
+        elif marked_bases and draw(st.integers(0, 7)) == 0:
+            # hand-written bases that already carry suppression markers (one-line functions, functions sharing a line):
+            # blank and ordinary comment lines between them must not change who is suppressed
+            text = draw(st.sampled_from(marked_bases))
+            case = {"lang": lang, "text": text}
         else:
             rnd = draw(st.randoms(use_true_random=False))
             ast = P.gen_program(rnd, lang, draw(st.sampled_from([10, 20, 35])))
@@ -537,6 +545,8 @@ def gen(col, seed, n, lang, use_corpus):
             col.label("base:with-bom")
         if "#if 0\n" in text and "corpus" not in case:
             col.label("base:with-disabled-region")
+        if text in marked_bases:
+            col.label("base:with-suppression-markers")
         if nt:
             col.nontrivial.add(digest(case))
             col.sample({"lang": lang, "base": case.get("corpus", "generated program"), "edits": edits[:6]})
